@@ -904,9 +904,16 @@ def mpf_atan2(y, x, prec, rnd=round_fast):
         if y == fzero:
             return fzero
         return mpf_shift(mpf_pi(prec, rnd), -1)
-    tquo = mpf_atan(mpf_div(y, x, prec+4), prec+4)
+    # The result lies in (0, pi): rounding down is rounding to floor.
+    # atan is increasing, so rounding the quotient, the arctangent and pi
+    # in the direction of the result keeps a directed result on the right side.
+    irnd = rnd
+    if rnd == round_down: irnd = round_floor
+    elif rnd == round_up: irnd = round_ceiling
+    wp = prec + 20
+    tquo = mpf_atan(mpf_div(y, x, wp, irnd), wp, irnd)
     if xsign:
-        return mpf_add(mpf_pi(prec+4), tquo, prec, rnd)
+        return mpf_add(mpf_pi(wp, irnd), tquo, prec, rnd)
     else:
         return mpf_pos(tquo, prec, rnd)
 
